@@ -513,4 +513,40 @@ theorem gopd_core (R : Desc) (T : TProp) (td : Option VProp)
         subst hv hw'
         cases R.configurable <;> cases R.writable <;> cases cc <;> simp [e2, VProp.toCur, Cur.configurable]
 
+
+/-! ### forwarding layers WITH trap logging: definitions -/
+
+abbrev TLog := List (Nat × Trap)
+
+def logAt {β : Type} (i : Nat) : Trap → β × TLog → β × TLog := fun t s => (s.1, s.2 ++ [(i, t)])
+
+/-- `A` (over base state × trap log) behaves as `B` (over the base state) on results and on the base state; the log
+component is unconstrained -/
+structure SimLog {β : Type} (A : Ops (β × TLog)) (B : Ops β) : Prop where
+  getProto : ∀ b l, ∃ l', A.getProto (b, l) = ((B.getProto b).1, ((B.getProto b).2, l'))
+  setProto : ∀ p b l, ∃ l', A.setProto p (b, l) = ((B.setProto p b).1, ((B.setProto p b).2, l'))
+  isExt : ∀ b l, ∃ l', A.isExt (b, l) = ((B.isExt b).1, ((B.isExt b).2, l'))
+  prevExt : ∀ b l, ∃ l', A.prevExt (b, l) = ((B.prevExt b).1, ((B.prevExt b).2, l'))
+  getOwn : ∀ k b l, ∃ l', A.getOwn k (b, l) = ((B.getOwn k b).1, ((B.getOwn k b).2, l'))
+  define : ∀ k d b l, ∃ l', A.define k d (b, l) = ((B.define k d b).1, ((B.define k d b).2, l'))
+  has : ∀ k b l, ∃ l', A.has k (b, l) = ((B.has k b).1, ((B.has k b).2, l'))
+  get : ∀ k r b l, ∃ l', A.get k r (b, l) = ((B.get k r b).1, ((B.get k r b).2, l'))
+  set : ∀ k v r b l, ∃ l', A.set k v r (b, l) = ((B.set k v r b).1, ((B.set k v r b).2, l'))
+  delete : ∀ k b l, ∃ l', A.delete k (b, l) = ((B.delete k b).1, ((B.delete k b).2, l'))
+  ownKeys : ∀ b l, ∃ l', A.ownKeys (b, l) = ((B.ownKeys b).1, ((B.ownKeys b).2, l'))
+
+/-- a base object placed next to a trap log it never touches -/
+def liftOps {β : Type} (B : Ops β) : Ops (β × TLog) where
+  getProto := fun s => ((B.getProto s.1).1, ((B.getProto s.1).2, s.2))
+  setProto := fun p s => ((B.setProto p s.1).1, ((B.setProto p s.1).2, s.2))
+  isExt := fun s => ((B.isExt s.1).1, ((B.isExt s.1).2, s.2))
+  prevExt := fun s => ((B.prevExt s.1).1, ((B.prevExt s.1).2, s.2))
+  getOwn := fun k s => ((B.getOwn k s.1).1, ((B.getOwn k s.1).2, s.2))
+  define := fun k d s => ((B.define k d s.1).1, ((B.define k d s.1).2, s.2))
+  has := fun k s => ((B.has k s.1).1, ((B.has k s.1).2, s.2))
+  get := fun k r s => ((B.get k r s.1).1, ((B.get k r s.1).2, s.2))
+  set := fun k v r s => ((B.set k v r s.1).1, ((B.set k v r s.1).2, s.2))
+  delete := fun k s => ((B.delete k s.1).1, ((B.delete k s.1).2, s.2))
+  ownKeys := fun s => ((B.ownKeys s.1).1, ((B.ownKeys s.1).2, s.2))
+
 end GojaModel.C11
